@@ -42,9 +42,9 @@ type Item struct {
 }
 
 type Label struct {
-	Key string `sql:",primary"`
-	Grp int64
-	Val *string
+	Code string `sql:",primary"`
+	Grp  int64
+	Val  *string
 }
 
 func newSchema() *sqlgen.Schema {
@@ -60,7 +60,7 @@ var times = []time.Time{
 }
 var zone = time.FixedZone("UTC+5:30", 5*3600+1800)
 
-func p64(v int64) *int64 { return &v }
+func p64(v int64) *int64    { return &v }
 func pstr(s string) *string { return &s }
 
 // ---- value representations ----
@@ -114,7 +114,7 @@ func intRep(r *rand.Rand, v int64, field string) rep {
 }
 
 func strRep(r *rand.Rand, v string, field string) rep {
-	base := map[string]string{"name": "string", "st": "Status", "opt_s": "string", "note": "string", "key": "string", "val": "string", "data": "[]byte"}[field]
+	base := map[string]string{"name": "string", "st": "Status", "opt_s": "string", "note": "string", "code": "string", "val": "string", "data": "[]byte"}[field]
 	type cand struct {
 		name string
 		val  interface{}
@@ -303,7 +303,7 @@ func genLabels(r *rand.Rand) []*Label {
 	n := 2 + r.Intn(6)
 	out := make([]*Label, 0, n)
 	for i := 0; i < n; i++ {
-		l := &Label{Key: fmt.Sprintf("k%d", i), Grp: int64(r.Intn(3))}
+		l := &Label{Code: fmt.Sprintf("k%d", i), Grp: int64(r.Intn(3))}
 		if r.Intn(2) == 0 {
 			l.Val = pstr([]string{"p", "q"}[r.Intn(2)])
 		}
@@ -332,7 +332,7 @@ func genFilter(r *rand.Rand, table string, nItems, nLabels int) (sqlgen.Filter, 
 	if table == "items" {
 		cols = []string{"id", "grp", "small", "lvl", "name", "st", "opt", "opt_s", "data", "flag", "at", "note", "id", "grp", "opt"}
 	} else {
-		cols = []string{"key", "grp", "val"}
+		cols = []string{"code", "grp", "val"}
 	}
 	for len(reps) < ncols {
 		col := cols[r.Intn(len(cols))]
@@ -365,7 +365,7 @@ func genFilter(r *rand.Rand, table string, nItems, nLabels int) (sqlgen.Filter, 
 			reps[col] = boolRep(r, r.Intn(2) == 0)
 		case "at":
 			reps[col] = timeRep(r, times[r.Intn(2)])
-		case "key":
+		case "code":
 			reps[col] = strRep(r, fmt.Sprintf("k%d", r.Intn(nLabels+1)), col)
 		case "val":
 			reps[col] = strRep(r, []string{"p", "q"}[r.Intn(2)], col)
@@ -383,7 +383,7 @@ func keyOf(row interface{}) string {
 	case *Item:
 		return fmt.Sprint(x.Id)
 	case *Label:
-		return x.Key
+		return x.Code
 	}
 	return "?"
 }
@@ -464,30 +464,127 @@ func subset(a, b []string) bool {
 	return true
 }
 
-// classify names the known defect a mismatch belongs to, or "".
-func classify(c *qcall, missingOnly bool) string {
-	if !missingOnly {
-		return ""
+// goKey models what thunder's batch dispatcher hashes for a value: one
+// pointer dereference, []byte as string, everything else the raw Go value.
+func goKey(v interface{}) interface{} {
+	rv := reflect.ValueOf(v)
+	if !rv.IsValid() || (rv.Kind() == reflect.Ptr && rv.IsNil()) {
+		return nil
 	}
-	anyNull, anyOff := false, false
+	if rv.Kind() == reflect.Ptr {
+		v = rv.Elem().Interface()
+	}
+	if b, ok := v.([]byte); ok {
+		return string(b)
+	}
+	return v
+}
+
+func fieldByColumn(row interface{}, col string) interface{} {
+	v := reflect.ValueOf(row)
+	if v.Kind() == reflect.Ptr {
+		v = v.Elem()
+	}
+	name := map[string]string{"id": "Id", "grp": "Grp", "small": "Small", "lvl": "Lvl", "name": "Name", "st": "St", "opt": "Opt", "opt_s": "OptS",
+		"data": "Data", "flag": "Flag", "at": "At", "note": "Note", "code": "Code", "val": "Val"}[col]
+	return v.FieldByName(name).Interface()
+}
+
+// goMatch: would a dispatcher that compares raw Go values hand this row to
+// this filter?
+func goMatch(filter sqlgen.Filter, row interface{}) bool {
+	for col, fv := range filter {
+		a, b := goKey(fv), goKey(fieldByColumn(row, col))
+		if a == nil || b == nil {
+			if a != b {
+				return false
+			}
+			continue
+		}
+		if reflect.TypeOf(a) != reflect.TypeOf(b) || !reflect.TypeOf(a).Comparable() || a != b {
+			return false
+		}
+	}
+	return true
+}
+
+// classify decides whether the difference between the rows a call gets alone
+// (ref) and what it got under batching is explained by the recorded defects:
+// every row it lost is one the raw-Go-value dispatcher cannot hand over (or
+// the filter has a NULL-denoting value, which the combined SELECT sends as
+// `IN (NULL)` / `= NULL`), and every row it gained is one that dispatcher
+// would hand over when another caller's disjunct fetched it. got == nil means
+// the row set is not visible (QueryRow): gotClass is explained instead.
+func classify(c *qcall, all map[string]interface{}, got []string, gotClass string) string {
+	nullFilter := false
 	for _, rp := range c.reps {
 		if rp.isNull {
-			anyNull = true
+			nullFilter = true
 		}
-		if rp.offType {
-			anyOff = true
+	}
+	name := "batch-matcher-raw-go-values"
+	if nullFilter {
+		name = "batch-null-filter-not-is-null"
+	}
+	ref := map[string]bool{}
+	for _, k := range c.refKeys {
+		ref[k] = true
+	}
+	losable := func(k string) bool { return nullFilter || !goMatch(c.filter, all[k]) }
+	gainable := func(k string) bool { return !ref[k] && all[k] != nil && goMatch(c.filter, all[k]) }
+	if got != nil || gotClass == "" {
+		seen := map[string]bool{}
+		for _, k := range got {
+			if seen[k] {
+				return "" // duplicates are never explained
+			}
+			seen[k] = true
+			if !ref[k] && !gainable(k) {
+				return ""
+			}
+		}
+		for k := range ref {
+			if !seen[k] && !losable(k) {
+				return ""
+			}
+		}
+		return name
+	}
+	keep := 0 // rows of ref the call cannot have lost
+	for k := range ref {
+		if !losable(k) {
+			keep++
+		}
+	}
+	gain := 0
+	for k := range all {
+		if gainable(k) {
+			gain++
 		}
 	}
 	switch {
-	case anyNull:
-		return "batch-null-filter-not-is-null"
-	case anyOff:
-		return "batch-matcher-raw-go-values"
+	case gotClass == "none":
+		if keep == 0 {
+			return name
+		}
+	case strings.HasPrefix(gotClass, "one:"):
+		k := strings.TrimPrefix(gotClass, "one:")
+		if ref[k] && (keep == 0 || (keep == 1 && !losable(k))) {
+			return name
+		}
+		if gainable(k) && keep == 0 {
+			return name
+		}
+	case gotClass == "many":
+		if len(ref)+gain >= 2 {
+			return name
+		}
 	}
 	return ""
 }
 
 func runRound(run *vlib.Run, i int) {
+	fmt.Println("CASE", i)
 	r := run.Rand("round", i)
 	eng := fakesql.New("", "verifdb")
 	defer eng.Dispose()
@@ -537,27 +634,47 @@ func runRound(run *vlib.Run, i int) {
 		calls = append(calls, c)
 	}
 
-	// reference: one at a time, no batching
-	for _, c := range calls {
-		c.refKeys, c.refRows, c.refErr = runQuery(bg, db, c)
-		c.refRowClass = rowClass(c.refKeys, c.refErr)
-		if c.refErr != nil && !(c.row && (c.refErr == sql.ErrNoRows || len(c.refKeys) == 0)) {
-			run.Broken(fmt.Sprintf("case %d: unbatched %s failed: %v", i, c.describe(), c.refErr))
+	// the table contents as structs (by key), read without batching
+	all := map[string]interface{}{}
+	for _, tb := range []string{"items", "labels"} {
+		_, rows, err := runQuery(bg, db, &qcall{table: tb})
+		if err != nil {
+			run.Broken(fmt.Sprintf("case %d: reading %s: %v", i, tb, err))
 			return
 		}
+		for k, v := range rows {
+			all[tb+"/"+k] = v
+		}
 	}
-	// QueryRow's "more than one row" outcome is recognised by an unbatched
-	// Query with the same filter, not by the error text
+	// reference: one at a time, no batching. The row set comes from Query;
+	// QueryRow's own unbatched outcome must agree with it (row / ErrNoRows /
+	// another error exactly when Query returns more than one row).
 	for _, c := range calls {
-		if c.row && c.refErr != nil && c.refErr != sql.ErrNoRows {
-			q := &qcall{table: c.table, filter: c.filter}
-			keys, _, err := runQuery(bg, db, q)
-			if err != nil || len(keys) < 2 {
-				run.Broken(fmt.Sprintf("case %d: unbatched %s failed with %v although Query returns %d rows", i, c.describe(), c.refErr, len(keys)))
-				return
-			}
+		q := &qcall{table: c.table, filter: c.filter}
+		c.refKeys, c.refRows, c.refErr = runQuery(bg, db, q)
+		if c.refErr != nil {
+			run.Broken(fmt.Sprintf("case %d: unbatched %s failed: %v", i, q.describe(), c.refErr))
+			return
+		}
+		if !c.row {
+			continue
+		}
+		switch len(c.refKeys) {
+		case 0:
+			c.refRowClass = "none"
+		case 1:
+			c.refRowClass = "one:" + c.refKeys[0]
+		default:
 			c.refRowClass = "many"
-			c.refKeys = keys
+		}
+		keys, _, err := runQuery(bg, db, c)
+		own := rowClass(keys, err)
+		if own == "error" {
+			own = "many"
+		}
+		if own != c.refRowClass {
+			run.Violation(i, "", map[string]interface{}{"what": "unbatched QueryRow disagrees with unbatched Query", "call": c.describe(), "query_keys": c.refKeys, "queryrow": own, "error": fmt.Sprint(err)})
+			return
 		}
 	}
 
@@ -643,32 +760,36 @@ func runRound(run *vlib.Run, i int) {
 			"batched_statements": stmts, "table_rows": tbl, "protocol": proto,
 		}
 	}
+	allOf := func(table string) map[string]interface{} {
+		m := map[string]interface{}{}
+		for k, v := range all {
+			if strings.HasPrefix(k, table+"/") {
+				m[strings.TrimPrefix(k, table+"/")] = v
+			}
+		}
+		return m
+	}
 	for _, c := range calls {
 		if c.row {
 			c.gotClass = rowClass(c.gotKeys, c.gotErr)
-			want := c.refRowClass
 			got := c.gotClass
 			if got == "error" {
-				// an error other than ErrNoRows: the ">1 row" outcome iff the reference is "many"
-				got = "many"
+				got = "many" // an error other than ErrNoRows stands for "more than one row"
 			}
-			if got == want {
+			if got == c.refRowClass {
 				if strings.HasPrefix(got, "one:") && !reflect.DeepEqual(c.gotRows[c.gotKeys[0]], c.refRows[c.refKeys[0]]) {
 					run.Count("mismatch:row-content", 1)
 					run.Violation(i, "", witness(c, "batched QueryRow returned a row with different content"))
 				}
-				run.Count("agree:QueryRow:"+strings.SplitN(want, ":", 2)[0], 1)
+				run.Count("agree:QueryRow:"+strings.SplitN(got, ":", 2)[0], 1)
 				continue
 			}
-			// fewer rows reached the call than on its own?
-			missingOnly := (want == "many" && (strings.HasPrefix(got, "one:") && subset(c.gotKeys, c.refKeys) || got == "none")) ||
-				(strings.HasPrefix(want, "one:") && got == "none")
-			if c.gotErr != nil && c.gotErr != sql.ErrNoRows && want != "many" {
-				missingOnly = false
+			cls := ""
+			if !strings.HasPrefix(c.gotClass, "ok-with") {
+				cls = classify(c, allOf(c.table), nil, got)
 			}
-			cls := classify(c, missingOnly)
 			run.Count("mismatch:"+orUnclassified(cls), 1)
-			run.Violation(i, cls, witness(c, fmt.Sprintf("QueryRow outcome differs under batching: alone %s, batched %s", want, c.gotClass)))
+			run.Violation(i, cls, witness(c, fmt.Sprintf("QueryRow outcome differs under batching: alone %s, batched %s", c.refRowClass, c.gotClass)))
 			continue
 		}
 		if c.gotErr != nil {
@@ -676,7 +797,7 @@ func runRound(run *vlib.Run, i int) {
 			run.Violation(i, "", witness(c, "batched Query failed although it succeeds on its own"))
 			continue
 		}
-		if reflect.DeepEqual(c.gotKeys, c.refKeys) || (len(c.gotKeys) == 0 && len(c.refKeys) == 0) {
+		if len(c.gotKeys) == len(c.refKeys) && subset(c.gotKeys, c.refKeys) {
 			same := true
 			for _, k := range c.gotKeys {
 				if !reflect.DeepEqual(c.gotRows[k], c.refRows[k]) {
@@ -693,8 +814,11 @@ func runRound(run *vlib.Run, i int) {
 			}
 			continue
 		}
-		missingOnly := len(c.gotKeys) < len(c.refKeys) && subset(c.gotKeys, c.refKeys)
-		cls := classify(c, missingOnly)
+		got := c.gotKeys
+		if got == nil {
+			got = []string{}
+		}
+		cls := classify(c, allOf(c.table), got, "")
 		run.Count("mismatch:"+orUnclassified(cls), 1)
 		run.Violation(i, cls, witness(c, "rows returned under batching differ from the rows returned on its own"))
 	}
@@ -782,9 +906,10 @@ func TestCheck(t *testing.T) {
 		"each call runs alone without batching (reference), then all run concurrently on one batch.WithBatching context; rows compared as sets keyed by primary key plus content, QueryRow by outcome (row / sql.ErrNoRows / more-than-one, the latter recognised through an unbatched Query, not the error text). " +
 		"Evaluation = one round; non-trivial = the statement log shows fewer SELECTs than calls; distinct = multiset of (op, table, column=representation) of the round.")
 	run.Assume("fakesql evaluates WHERE like MySQL for the argument forms sqlgen sends (three-valued logic, numeric comparison of ints, bytewise strings, DATETIME(6) in UTC); unbatched thunder against it is the reference")
+	run.Assume("fakesql compares strings bytewise (binary collation, no PAD SPACE) and serialises writers with one engine-wide lock (READ COMMITTED for plain SELECTs)")
 	run.Assume("filters are restricted to values the unbatched path accepts (no stringly numbers, no sub-microsecond times)")
 	pinned(run)
-	n := run.N(3000, 300000)
+	n := run.N(3000, 1000000)
 	run.Each(n, 8, func(i int) { runRound(run, i) })
 	if _, only := run.Only(); !only && run.Counter("rounds_combined") == 0 {
 		run.Inconclusive("no round combined calls into fewer SELECTs: batching was never observed")
